@@ -223,9 +223,14 @@ def process_all(progs: list[dict], opts: dict, nproc: int = NCPU) -> list[dict]:
 def _tmpfile(name: str) -> str:
     """A path in the scratch directory (re-created if something outside this
     process removed it during a long run)."""
+    return os.path.join(ensure_scratch(), name)
+
+
+def ensure_scratch() -> str:
     d = scratch()
-    os.makedirs(d, exist_ok=True)
-    return os.path.join(d, name)
+    for sub in ("", "tmp", "cache"):
+        os.makedirs(os.path.join(d, sub), exist_ok=True)
+    return d
 
 
 # the TLC runs here are many and short: C1-only JIT and few GC threads cut
@@ -355,11 +360,13 @@ def liveness(insts: list[dict], timeout: float = 1500, shards: int | None = None
 
 
 def validate_traces(recs: list[dict], timeout: float = 1500) -> tlc.Validation:
+    ensure_scratch()
     return tlc.validate_records("DistTrace", "DistTrace.cfg", recs, timeout=timeout,
                                 shards=min(NCPU, max(1, len(recs) // 60)), heap="3g", env=JVM)
 
 
 def validate_partitions(recs: list[dict], timeout: float = 1500) -> tlc.Validation:
+    ensure_scratch()
     return tlc.validate_records("DistPartition", "DistPartition.cfg", recs, timeout=timeout,
                                 shards=min(NCPU, max(1, len(recs) // 60)), heap="3g", env=JVM)
 
